@@ -79,6 +79,24 @@ fn check_transport_contract(cx: &Cx) -> CaseResult {
         "Transport::write(CreateNew) on an existing non-empty file returned ok={wrote} and the file now holds {:?}",
         String::from_utf8_lossy(&now)
     );
+    // the same with payloads of several sizes up to a few MiB
+    for len in [4096usize, 65_537, (1 << 20) + 1, 3 << 20] {
+        std::fs::write(dir.join("g"), b"original").unwrap();
+        let d2 = dir.clone();
+        let payload = crate::tree::content_bytes(3, len as u32);
+        let r = ops::run_op(move |_m| async move {
+            let t = Transport::local(&d2);
+            Ok(t.write("g", &payload, WriteMode::CreateNew).await.is_ok())
+        });
+        let wrote = r.result.unwrap_or(true);
+        let now = std::fs::read(dir.join("g")).unwrap_or_default();
+        ensure!(
+            !wrote && now == b"original",
+            "C07/create-new-overwrites/large-payload",
+            "Transport::write(CreateNew, {len} bytes) on an existing file returned ok={wrote}; the file now holds {} bytes",
+            now.len()
+        );
+    }
     Ok(())
 }
 
@@ -135,7 +153,7 @@ fn check_backup_step(
 
 fn run_hist(h: &History, cx: &mut Cx) -> CaseResult {
     check_transport_contract(cx)?;
-    let mut w = World::new(&cx.scratch, &h.initial);
+    let mut w = World::for_history(&cx.scratch, h);
     let mut evals = 0u64;
     let mut incremental_or_resumed = false;
     for (i, op) in h.ops.iter().enumerate() {
@@ -370,18 +388,88 @@ fn run(case: &Case, cx: &mut Cx) -> CaseResult {
     }
 }
 
+/// Scale probes (see probes.rs): two backups racing over a shared file of several MiB (one
+/// block), and a gc on a version with 10 015 index hunks.
+fn enumerate(_tier: Tier, idx: u32, of: u32, cx: &mut Cx) -> CaseResult {
+    if !crate::probes::mine(idx, of) {
+        return Ok(());
+    }
+    // --- big shared block race
+    let sub = cx.dir("big-race");
+    std::fs::create_dir_all(&sub).unwrap();
+    let mut cx2 = crate::engine::sub_cx(cx, sub.clone());
+    cx2.tier = Tier::Quick;
+    let m = crate::probes::plain_meta();
+    let mut initial = Tree::empty_root(crate::tree::Meta { mode: 0o755, ..m });
+    initial.0.insert("/shared-big".into(), crate::tree::Node { kind: crate::tree::Kind::File { pool: 3, len: 3 << 20 }, meta: m });
+    initial.0.insert("/small".into(), crate::tree::Node { kind: crate::tree::Kind::File { pool: 4, len: 50 }, meta: m });
+    let add = |name: &str, pool: u8| Edit::AddFile { dir: 0, name: name.into(), pool, len: 90, meta: m };
+    crate::engine::heartbeat();
+    run_race(
+        &initial,
+        None,
+        &[add("only-in-one", 5)],
+        &[add("only-in-two", 6)],
+        Opts::defaults(),
+        Opts::defaults(),
+        &[vec![(0, 8), (1, 200)], vec![(1, 8), (0, 200)], vec![(0, 9), (1, 9), (0, 200)]],
+        &mut cx2,
+    )
+    .map_err(|mut f| {
+        f.signature = format!("{}/probe-big-shared-block", f.signature);
+        f
+    })?;
+    crate::engine::force_remove(&sub);
+    cx.add_evals(cx2.evals);
+    cx.inner_nontrivial += cx2.inner_nontrivial.max(1);
+
+    // --- gc on a version with more than 10 000 hunks: nothing referenced may be removed
+    crate::engine::heartbeat();
+    let (opts, tree) = crate::probes::many_hunks_tree(10_012);
+    let sub = cx.dir("many-hunks");
+    std::fs::create_dir_all(&sub).unwrap();
+    let w = World::new(&sub, &tree);
+    let b = ops::backup(&w.arch, &None, &w.src, opts, &[]);
+    ensure!(!ops::backup_reported_error(&b), "C07/probe-setup", "{}", b.describe());
+    let before = format::raw_tree(&w.arch);
+    let pre = format::scan(&w.arch);
+    let referenced = pre.referenced_hashes([0u32].into_iter());
+    crate::engine::heartbeat();
+    let r = ops::delete_bands(&w.arch, &None, &[], false, false);
+    ensure!(r.panic.is_none(), "C07/delete-panic", "{}", r.describe());
+    let after = format::raw_tree(&w.arch);
+    for (p, bytes) in &before {
+        match after.get(p) {
+            Some(a) if a == bytes => {}
+            Some(_) => fail!("C07/delete-altered-file/probe-many-hunks", "{p} was modified by gc"),
+            None => {
+                let unref_block = p.starts_with("d/") && !p.ends_with('/') && !referenced.contains(p.rsplit('/').next().unwrap());
+                ensure!(
+                    unref_block || p == "GC_LOCK" || (p.starts_with("d/") && p.ends_with('/')),
+                    "C07/delete-removed-other-file/probe-many-hunks",
+                    "gc on a single 10 015-hunk version removed {p}, which that version references"
+                );
+            }
+        }
+    }
+    crate::engine::force_remove(&sub);
+    cx.add_evals(1);
+    cx.inner_nontrivial += 1;
+    Ok(())
+}
+
 pub fn prop() -> Prop<Case> {
     Prop {
         id: "C07",
         level: "exploration",
-        rule: "two generated case kinds. Hist: history as C02 with every storage operation logged together with the pre-state of its path and the directory snapshotted (bytes) before/after each step: per backup step (complete, interrupted, resumed) every pre-existing file is still there byte-identical (a zero-length leftover may be completed), the log has no write to a path that held >0 bytes, no path written twice, no remove, and the new id exceeds every id that existed; per delete/gc step removals are confined to requested version directories, blocks unreferenced by the kept versions (independent scan) and GC_LOCK, and nothing is modified or created; plus the transport contract (CreateNew on an existing file fails and leaves it). Race: two backups of differing sources on one archive under the deterministic scheduler: all schedules with <=2 context switches over thinned switch points (quick 10 / thorough 40 per actor) + generated random schedules; every version's files are written by one actor only, nobody writes to an existing non-empty path, pre-existing files unchanged, and every backup that reports success has a closed version that restores to its own source. Non-trivial: history step over an archive that already has a band; race schedule in which both actors list the versions before either creates one. Race schedules distinct by construction, histories by case hash",
+        rule: "two generated case kinds. Hist: history as C02 with every storage operation logged together with the pre-state of its path and the directory snapshotted (bytes) before/after each step: per backup step (complete, interrupted, resumed) every pre-existing file is still there byte-identical (a zero-length leftover may be completed), the log has no write to a path that held >0 bytes, no path written twice, no remove, and the new id exceeds every id that existed; per delete/gc step removals are confined to requested version directories, blocks unreferenced by the kept versions (independent scan) and GC_LOCK, and nothing is modified or created; plus the transport contract (CreateNew on an existing file fails and leaves it). Race: two backups of differing sources on one archive under the deterministic scheduler: all schedules with <=2 context switches over thinned switch points (quick 10 / thorough 40 per actor) + generated random schedules; every version's files are written by one actor only, nobody writes to an existing non-empty path, pre-existing files unchanged, and every backup that reports success has a closed version that restores to its own source. Non-trivial: history step over an archive that already has a band; race schedule in which both actors list the versions before either creates one. Race schedules distinct by construction, histories by case hash. The transport contract is probed with payloads up to 3 MiB; fixed scale probes per run: a race of two backups sharing a 3 MiB single-block file, and a gc on a 10 015-hunk version",
         assumptions: &[
             "interleavings are at transport-operation granularity on sequentially consistent local storage",
         ],
         cases: |t| t.pick(400, 5_000),
         strategy,
         run,
-        enumerate: None,
+        enumerate: Some(enumerate),
         exhaustive: |_| false,
         max_shrink_iters: 200,
     }
